@@ -63,7 +63,8 @@ theorem countInv_iter (cfg : Cfg) (tgt : Option Int) (φ : Step → Prop) :
   enq := by
     intro x s via m t cid child _ _ h
     simp only [CountInv, St.enqueue, PQ.enqueue, List.length_append, List.length_singleton] at h ⊢; omega
-  cancel := by intro x s id _ h; simpa [CountInv, St.cancel] using h
+  cancel := by intro x s id h; simpa [CountInv, St.cancel] using h
+  link := by intro x s l h; exact h
   stop := by intro x s _ h; exact h
   sleep := by intro x s t _ _ h; exact h
   handled := by intro x s e _ _ h; exact h
